@@ -2,7 +2,7 @@
 From Coq Require Import List String Bool.
 Import ListNotations.
 From ClasticV Require Import Base.Py Base.FSet Gen.Tables Model.Chain
-     Proofs.ChainProofs Proofs.RouteProofs.
+     Model.Exec Proofs.ChainProofs Proofs.ExecProofs Proofs.RouteProofs Proofs.OnionProofs Proofs.ValueProofs Proofs.NestedProofs.
 Local Open Scope string_scope.
 Local Open Scope list_scope.
 
@@ -63,3 +63,16 @@ Example C04_example_conflict :
         [mk_mw 0 0 true true (Some (mk_fsig ["next"] 0 [] [])) None None ["x"] [] ["x"]]
         (mk_fsig [] 0 [] []) (mk_fsig ["context"] 0 [] [])) = Raise "NameError".
 Proof. split; vm_compute; reflexivity. Qed.
+
+(* embedded placement: when an application embedded under a prefix is accepted, the URL bindings of the prefix and of
+   the route, the reserved names, the resources of ALL levels and every provides tuple of the flat middleware list are
+   pairwise distinct - so a name of the prefix that is also an inner resource, a middleware's provide or a reserved
+   name makes the construction fail *)
+Theorem C04_nested_sources_distinct :
+  forall o a pn pr m2, build_nested o a = Ok (pn, pr, m2) ->
+  NoDup (all_offers (src_offers (nested_route_cfg o a m2)) m2).
+Proof.
+  intros o a pn pr m2 Hb. destruct (nested_accept o a pn pr m2 Hb) as (_ & _ & _ & _ & _ & Hr).
+  exact (accept_disjoint (nested_route_cfg o a m2) pr Hr).
+Qed.
+Print Assumptions C04_nested_sources_distinct.
